@@ -153,6 +153,7 @@ theorem subOf_eraseL : ∀ (fs : Fields), subOf (eraseL fs) = subOf fs
     | group w g => simp only [eraseL, eraseN, subOf]; exact subOf_eraseL r
     | classArg req imp cls => simp only [eraseL, eraseN, subOf]; exact subOf_eraseL r
     | listOf req it => simp only [eraseL, eraseN, subOf]; exact subOf_eraseL r
+    | optGroup req ogfs => simp only [eraseL, eraseN, subOf]; exact subOf_eraseL r
 
 theorem selected_eraseL (fs : Fields) (kvs : KV) : selected (eraseL fs) kvs = selected fs kvs := by
   unfold selected; rw [subOf_eraseL]
@@ -172,6 +173,7 @@ theorem reqNode_erase : ∀ (pre : Path) (cut : Nat) (kvs : KV) (name : String) 
   | _, _, _, _, .leaf ty req d => by simp [eraseN]
   | _, _, _, _, .classArg req imp cls => by simp [eraseN]
   | _, _, _, _, .listOf req it => by simp [eraseN]
+  | _, _, _, _, .optGroup req ogfs => by simp [eraseN]
   | _, _, _, _, .subcommands rq cs => by rw [eraseN_sub]
 end
 
@@ -204,6 +206,7 @@ theorem appendSlot_eraseL (fs : Fields) (k : String) : appendSlot (eraseL fs) k 
       | leaf ty rq d => simp [eraseN]
       | classArg rq imp cls => simp [eraseN]
       | listOf rq it => simp [eraseN]
+      | optGroup rq ogfs => simp [eraseN]
       | subcommands rq cs => simp [eraseN_sub]
 
 mutual
@@ -223,6 +226,7 @@ theorem chkVal_erase {ld : String → Val} : ∀ (pre : Path) (cut : Nat) (item 
   | _, _, _, .leaf ty req d, _, _ => by simp [eraseN]
   | _, _, _, .classArg req imp cls, _, _ => by simp [eraseN]
   | _, _, _, .listOf req it, _, _ => by simp [eraseN]
+  | _, _, _, .optGroup req ogfs, _, _ => by simp [eraseN]
   | _, _, _, .subcommands rq cs, _, _ => by rw [eraseN_sub]
 theorem walk_erase {ld : String → Val} : ∀ (pre : Path) (cut : Nat) (fs : Fields) (sel : Option String) (kvs : KV),
     noStrKVs fs kvs = true → walk ld pre cut (eraseL fs) sel kvs = walk ld pre cut fs sel kvs
